@@ -262,3 +262,81 @@ func VH_C09_Set() {
 	symAssert(err == nil, "no-error")
 	symAssert(out == "[]["+v+"]["+v+"!]("+v+"1)("+v+"12)["+v+"12][in-if][7]", "set-visible-afterwards")
 }
+
+// ---- C09.recursive: a loop that is re-entered while it runs keeps its own counters -------------------
+
+type vhC09Node struct {
+	name string
+	kids []vhC09Node
+}
+
+func vhC09Tree(n vhC09Node) map[string]interface{} {
+	ks := []interface{}{}
+	for _, k := range n.kids {
+		ks = append(ks, vhC09Tree(k))
+	}
+	return map[string]interface{}{"name": n.name, "kids": ks}
+}
+
+// reference: "<index/length name (children) after:index last?>" per element
+func vhC09RefTree(kids []vhC09Node) string {
+	out := ""
+	for i, k := range kids {
+		out += "<" + strconv.Itoa(i+1) + "/" + strconv.Itoa(len(kids)) + k.name + "(" + vhC09RefTree(k.kids) + ")" + strconv.Itoa(i+1)
+		if i == len(kids)-1 {
+			out += "!"
+		}
+		out += ">"
+	}
+	return out
+}
+
+// VH_C09_Recursive: a tree of depth <= 3 whose branching is symbolic (0..2 children per node), rendered
+// by a template that includes itself, by a macro that calls itself, and by a macro that includes a
+// template that calls the macro: at every level loop.index / loop.length / loop.last read before and
+// after the recursive call belong to that level's loop.
+func VH_C09_Recursive() {
+	mk := func(name string, depth int) vhC09Node { return vhC09Node{name: name} }
+	_ = mk
+	var build func(prefix string, depth int) []vhC09Node
+	build = func(prefix string, depth int) []vhC09Node {
+		n := symChoice(3)
+		kids := make([]vhC09Node, n)
+		for i := range kids {
+			kids[i].name = prefix + string(rune('a'+i))
+			if depth > 1 {
+				kids[i].kids = build(kids[i].name, depth-1)
+			}
+		}
+		return kids
+	}
+	roots := build("", symParam("D", 2))
+	form := symChoice(3)
+	symTag("form:" + []string{"self-include", "self-macro", "macro-include"}[form])
+	body := "<{{ loop.index }}/{{ loop.length }}{{ n.name }}(%R){{ loop.index }}{% if loop.last %}!{% endif %}>"
+	e := New()
+	var main string
+	switch form {
+	case 0:
+		e.RegisterString("tree", "{% for n in kids %}"+vhReplace(body, "%R", "{% include 'tree' with {'kids': n.kids} %}")+"{% endfor %}")
+		main = "{% include 'tree' %}"
+	case 1:
+		main = "{% macro walk(kids) %}{% for n in kids %}" + vhReplace(body, "%R", "{{ _self.walk(n.kids) }}") + "{% endfor %}{% endmacro %}{{ _self.walk(kids) }}"
+	case 2:
+		e.RegisterString("lib", "{% macro walk(kids) %}{% for n in kids %}"+vhReplace(body, "%R", "{% include 'via' with {'kids': n.kids} %}")+"{% endfor %}{% endmacro %}")
+		e.RegisterString("via", "{% import 'lib' as l %}{{ l.walk(kids) }}")
+		main = "{% include 'via' %}"
+	}
+	if e.RegisterString("main", main) != nil {
+		symAssert(false, "template-parses")
+		return
+	}
+	ks := []interface{}{}
+	for _, k := range roots {
+		ks = append(ks, vhC09Tree(k))
+	}
+	out, err := e.Render("main", map[string]interface{}{"kids": ks})
+	symCover("rendered")
+	symAssert(err == nil, "renders")
+	symAssert(out == vhC09RefTree(roots), "recursive-loops-keep-their-own-counters")
+}
